@@ -1,7 +1,7 @@
 (* C14 -- Observing the IR never changes it. *)
 From Coq Require Import List Bool ZArith.
 From Coq Require Import String.
-From LLIR Require Gen.Ctors Proofs.CtorProofs.
+From LLIR Require Gen.Ctors Proofs.CtorProofs Gen.Locks Proofs.GenTables.
 From LLIR Require Import Model.Numbering Model.History Gen.Printers Proofs.NumberingProofs Proofs.HistoryProofs Proofs.ObserverProofs Proofs.CacheProofs.
 Import ListNotations.
 Local Open Scope Z_scope.
@@ -73,3 +73,10 @@ Proof. exact constructors_fill_type_caches. Qed.
 Theorem C14_caching_types_have_constructors :
   forallb (fun tm => existsb (fun c => String.eqb (fst tm) (ctor_target c)) Ctors.ctors) caching_observers = true.
 Proof. exact caching_types_have_constructors. Qed.
+
+(* a print that fails leaves the function usable: each of the three ID passes takes its mutex as its first
+   statement and releases it by a deferred unlock as its second, so also on every error return and on a panic
+   (regenerated Gen/Locks.v) *)
+Theorem C14_id_passes_release_their_lock :
+  forallb (fun r => Locks.l_locked r && Locks.l_unlock_deferred r) Locks.lock_rows = true.
+Proof. exact GenTables.passes_locked. Qed.
